@@ -176,7 +176,7 @@ func allSpecs() []*HarnessSpec {
 				{"run": {2047, 16384, 32767, 32768, 40000, 65535, 65536}, "opt": {16, 4}, "fan": {16}}},
 			Thorough: []Grid{{"run": {0, 1, 126, 127, 128, 129, 2047, 2048, 16383, 16384, 32766, 32767, 32768, 32769, 40000}, "opt": {16, 0, 2, 4, 9}},
 				{"run": {0, 1, 127, 2047, 16384, 32767, 32768, 40000, 65534, 65535, 65536, 70000}, "opt": {16, 0, 2, 4, 9}, "fan": {11, 16}}},
-			Note:     "shared runs up to and beyond 65535 half-bytes with symbolic tails: the builder refuses with ErrStepTooLong (only beyond the documented 16 KiB) or every key is found"},
+			Note: "shared runs up to and beyond 65535 half-bytes with symbolic tails: the builder refuses with ErrStepTooLong (only beyond the documented 16 KiB) or every key is found"},
 	}...)
 }
 
@@ -277,6 +277,26 @@ func apiSpecs() []*HarnessSpec {
 			q2 = append(q2, Grid{"n": {1, 2}, "L": {1}, "lens": rng(0, 3), "opt": {16, 9, 0}, "enc": {7}, "check": {p.check}, "lq": lq, "cv": {-1}})
 			t2 = append(t2, Grid{"n": {1, 2}, "L": {2}, "lens": rng(0, 8), "opt": p.small, "enc": {7}, "check": {p.check}, "lq": lq, "cv": {-1}})
 		}
+		if p.check == 1 || p.check == 2 || p.check == 3 || p.check == 9 || p.check == 10 {
+			// application encoder whose encodings are empty or of one fixed width: fixed-size leaf
+			// array with absent elements (presence bitmap + rank)
+			lq := []int{0}
+			if len(p.lqQ) > 1 {
+				lq = []int{1, 2}
+			}
+			q2 = append(q2, Grid{"n": {2}, "L": {1}, "lens": rng(0, 3), "opt": p.small[:2], "enc": {8}, "check": {p.check}, "lq": lq, "cv": {-1}})
+			if len(p.lqQ) == 1 {
+				// (with a symbolic query on top, three keys x 2^3 presence patterns do not finish in the item budget)
+				q2 = append(q2, Grid{"n": {3}, "L": {1}, "lens": {7}, "opt": p.small[:1], "enc": {8}, "check": {p.check}, "lq": lq[:1], "cv": {-1}})
+			}
+			t2 = append(t2, Grid{"n": {2}, "L": {2}, "lens": rng(0, 8), "opt": p.small, "enc": {8}, "check": {p.check}, "lq": lq, "cv": {-1}},
+				Grid{"n": {3}, "L": {1}, "lens": rng(0, 7), "opt": p.small[:1], "enc": {8}, "check": {p.check}, "lq": lq[:1], "cv": {-1}})
+		}
+		if len(p.lqQ) > 1 {
+			// symbolic keys; the query is a key + one symbolic byte + a concrete tail of 33 / 70 bytes
+			q2 = append(q2, Grid{"n": {2}, "L": {1}, "lens": {3}, "opt": p.small[:2], "enc": p.encs[:1], "check": {p.check}, "lq": {1}, "cv": {-1}, "qkey": {-1}, "qtail": {33, 70}})
+			t2 = append(t2, Grid{"n": {2}, "L": {2}, "lens": rng(0, 8), "opt": p.small, "enc": p.encs[:1], "check": {p.check}, "lq": {0, 1}, "cv": {-1}, "qkey": {-1}, "qtail": {31, 32, 33, 70}})
+		}
 		if p.check == 14 {
 			// three keys, the wider integer encoders, every indexed key also used as the query
 			q2 = append(q2, Grid{"n": {3}, "L": {1}, "lens": {7}, "opt": {16, 0}, "enc": {4, 5, 6}, "check": {14}, "lq": {1}, "cv": {-1}, "allkeys": {1}})
@@ -314,6 +334,25 @@ func apiSpecs() []*HarnessSpec {
 			t3 = append(t3, Grid{"skel": {20, 21, 22}, "opt": p.small, "enc": {2}, "runs": {0}, "check": {p.check}, "lq": lqS, "symv": {1}, "vl": {2, 3}},
 				Grid{"skel": {20}, "opt": so, "enc": {2}, "runs": {0}, "check": {p.check}, "lq": lqS, "symv": {1}, "vl": {4, 5}})
 		}
+		if p.check != 14 && p.check != 18 {
+			// the empty-or-fixed-width application encoder on skeletons (every third value absent)
+			q3 = append(q3, l3Grid(p.check, []int{0, 1, 2, 5, 101, 110, 120, 303}, p.small[:2], []int{8}, []int{0, 2}, lqS),
+				Grid{"skel": {20, 21, 22}, "opt": p.small[:2], "enc": {8}, "runs": {0}, "check": {p.check}, "lq": lqS, "symv": {1}})
+			t3 = append(t3, l3Grid(p.check, swT, p.small, []int{8}, []int{0, 1, 3}, lqS),
+				Grid{"skel": {20, 21, 22}, "opt": p.opts, "enc": {8}, "runs": {0}, "check": {p.check}, "lq": lqS, "symv": {1}})
+		}
+		// length-diverse skeletons (12, 13: key lengths on and around 32/64/128/256 bytes) and a key
+		// that is also an inner node with all 16 branches (14)
+		q3 = append(q3, l3Grid(p.check, []int{12, 13, 14}, p.small[:2], enc3, []int{0, 2}, lq3Q))
+		if len(p.lqQ) > 1 {
+			// queries much longer than the keys: an indexed key + lq symbolic bytes + a concrete tail
+			lt := l3Grid(p.check, []int{0, 1, 12, 13}, p.small[:2], enc3, []int{0}, []int{0, 1})
+			lt["qkey"], lt["qtail"] = []int{-1}, []int{0, 40}
+			q3 = append(q3, lt)
+			ltT := l3Grid(p.check, []int{0, 1, 2, 3, 12, 13, 14, 101, 110}, p.small, enc3, []int{0, 2}, []int{0, 1, 2})
+			ltT["qkey"], ltT["qtail"] = []int{-1}, []int{0, 31, 32, 33, 40, 70}
+			t3 = append(t3, ltT)
+		}
 		if p.check == 14 {
 			// every indexed key as the query, all four integer widths: leaf byte counts that are
 			// not multiples of 8 (partial last word), 1..355 leaves
@@ -347,7 +386,7 @@ func apiSpecs() []*HarnessSpec {
 		Quick: []Grid{
 			scanGrid(0, 2, optsComplFew, []int{1, 2, 0}, []int{0, 1, 2}, []int{0, 1}, []int{1}, []int{0}),
 			scanGrid(1, 2, optsComplFew, []int{1, 2, 0}, []int{0, 1, 2}, []int{0, 1, 2}, []int{1}, []int{0}),
-			alpha(scanGrid(2, 1, optsComplFew[:1], []int{1, 2}, []int{0}, []int{1}, []int{1}, []int{0})),
+			alpha(scanGrid(2, 1, optsComplFew[:1], []int{1, 2, 8}, []int{0}, []int{1}, []int{1}, []int{0})),
 		},
 		Thorough: []Grid{
 			scanGrid(0, 2, optsComplete, []int{1, 2, 0}, []int{0, 1, 2}, []int{0, 1, 2}, []int{0, 1, 2}, []int{0, 1}),
@@ -358,7 +397,11 @@ func apiSpecs() []*HarnessSpec {
 	out = append(out, &HarnessSpec{Name: "l3_api", Pkg: "trie", Property: "C04", Witness: 1,
 		Quick: []Grid{{"skel": {0, 1, 2, 3, 7}, "opt": {9}, "enc": {1}, "runs": {0, 2}, "check": {4}, "lq": {1, 2}, "api": {0}, "le": {1}, "stop": {0}},
 			{"skel": append(step(100, 112, 2), 300, 303, 305, 310, 313), "opt": {9}, "enc": {1}, "runs": {0, 3}, "check": {4}, "lq": {1}, "api": {0}, "le": {1}, "stop": {0}},
-			{"skel": {0}, "opt": {9}, "enc": {2}, "runs": {0}, "check": {4}, "lq": {1}, "api": {0, 2}, "le": {2}, "stop": {0}}},
+			{"skel": {0}, "opt": {9}, "enc": {2}, "runs": {0}, "check": {4}, "lq": {1}, "api": {0, 2}, "le": {2}, "stop": {0}},
+			{"skel": {12, 13, 14}, "opt": {9}, "enc": {1}, "runs": {0}, "check": {4}, "lq": {1}, "api": {0}, "le": {1}, "stop": {0}},
+			// empty-or-fixed-width application encoder: absent leaves inside a fixed-size leaf array
+			{"skel": {0, 1, 2, 101, 104, 110}, "opt": {9}, "enc": {8}, "runs": {0, 2}, "check": {4}, "lq": {1}, "api": {0}, "le": {1}, "stop": {0}},
+			{"skel": {20, 21, 22}, "opt": {9}, "enc": {8, 2}, "runs": {0}, "check": {4}, "lq": {1}, "api": {0, 2}, "le": {1}, "stop": {0}, "symv": {1}}},
 		Thorough: []Grid{{"skel": {0, 1, 2, 3, 4}, "opt": optsComplete, "enc": {1, 2, 0}, "runs": {0, 2}, "check": {4}, "lq": {0, 1, 2, 3}, "api": {0, 1, 2}, "le": {1, 2}, "stop": {0, 2}}},
 		Note:     "L3: scans over skeleton tries (257-bit root, deep caterpillar whose stack outgrows the initial scan stack, prefix keys)"})
 	nonComplete := []int{0, 1, 2, 3, 4, 5, 16}
@@ -381,7 +424,9 @@ func apiSpecs() []*HarnessSpec {
 		Note: "the four information levels built from one symbolic key/value list; found in a mode storing more => found with the same value in every mode storing less; Complete exact"})
 	out = append(out, &HarnessSpec{Name: "l3_api", Pkg: "trie", Property: "C13", Witness: 1,
 		Quick: []Grid{{"skel": {0, 1, 2}, "opt": {1}, "enc": {1}, "runs": {0, 2}, "check": {13}, "lq": {1, 3}},
-			{"skel": step(100, 150, 5), "opt": {1}, "enc": {1}, "runs": {0, 3}, "check": {13}, "lq": {1}}},
+			{"skel": step(100, 150, 5), "opt": {1}, "enc": {1}, "runs": {0, 3}, "check": {13}, "lq": {1}},
+			{"skel": {12, 13, 14}, "opt": {1}, "enc": {1}, "runs": {0, 2}, "check": {13}, "lq": {1}},
+			{"skel": {0, 1, 12, 13}, "opt": {1}, "enc": {1}, "runs": {0}, "check": {13}, "lq": {0, 1}, "qkey": {-1}, "qtail": {0, 40}}},
 		Thorough: []Grid{{"skel": {0, 1, 2, 3, 4}, "opt": {0, 1}, "enc": {1}, "runs": {0, 2}, "check": {13}, "lq": {0, 1, 2, 3, 4, 5}}},
 		Note:     "L3: same on skeleton key sets"})
 	// ---- C19 String ----
@@ -392,7 +437,7 @@ func apiSpecs() []*HarnessSpec {
 			{"n": {2}, "L": {2}, "lens": rng(0, 8), "opt": optsDistinct, "enc": {1, 0, 3}, "check": {19}, "lq": {0}, "cv": {0, 2}, "alpha": {1}}},
 		Note: "String() on every build path: no panic, one line per node, leaf lines carry the retained (concrete) values in key order"})
 	out = append(out, &HarnessSpec{Name: "l3_api", Pkg: "trie", Property: "C19", Witness: 1,
-		Quick: []Grid{{"skel": {0, 1, 2, 3, 4, 5, 6, 7, 8}, "opt": {16, 9}, "enc": {1}, "runs": {0, 2}, "check": {19}, "lq": {0}, "loaded": {0, 1}},
+		Quick: []Grid{{"skel": {0, 1, 2, 3, 4, 5, 6, 7, 8, 12, 13, 14}, "opt": {16, 9}, "enc": {1}, "runs": {0, 2}, "check": {19}, "lq": {0}, "loaded": {0, 1}},
 			{"skel": append(step(100, 150, 1), append(rng(300, 306), rng(310, 315)...)...), "opt": {16, 9}, "enc": {1}, "runs": {0}, "check": {19}, "lq": {0}, "loaded": {0}}},
 		Thorough: []Grid{{"skel": {0, 1, 2, 3, 4, 5, 6, 7, 8, 9}, "opt": optsDistinct, "enc": {1, 3}, "runs": {0, 1, 2, 3}, "check": {19}, "lq": {0}, "loaded": {0, 1}}},
 		Note:     "String() on skeleton tries incl. short-node tables and a 257-bit root"})
@@ -407,6 +452,8 @@ func apiSpecs() []*HarnessSpec {
 	out = append(out, &HarnessSpec{Name: "l3_api", Pkg: "trie", Property: "C05", Witness: 1,
 		Quick: []Grid{{"skel": {0, 1, 2, 4, 5, 10}, "opt": {16, 9}, "enc": {1}, "runs": {0, 2}, "check": {5}, "lq": {1, 2}},
 			{"skel": {100, 102, 104}, "opt": {16, 9}, "enc": {1}, "runs": {0}, "check": {5}, "lq": {1}},
+			{"skel": {12, 13, 14}, "opt": {16, 9}, "enc": {1}, "runs": {0}, "check": {5}, "lq": {1}},
+			{"skel": {0, 13}, "opt": {16, 9}, "enc": {1}, "runs": {0}, "check": {5}, "lq": {1}, "qkey": {-1}, "qtail": {40}},
 			{"skel": append(step(105, 150, 5), 300, 301, 303, 304, 310, 311, 314), "opt": {16, 9, 4}, "enc": {1}, "runs": {0}, "check": {5}, "lq": {1}, "det": {0}}},
 		Thorough: []Grid{{"skel": {0, 1, 2, 3, 4, 5, 6, 7, 8, 10}, "opt": optsDistinct, "enc": {1, 2}, "runs": {0, 2}, "check": {5}, "lq": {0, 1, 2, 3, 4}}},
 		Note:     "L3: round trip and determinism on skeleton tries (short-node tables with ties in the bitmap-frequency table)"})
@@ -414,7 +461,7 @@ func apiSpecs() []*HarnessSpec {
 		Quick: []Grid{{"L": {1}, "na": {2}, "lensa": {3}, "opta": {9}, "nb": {1}, "lensb": {1}, "optb": {16}, "nops": {2}, "seq": rng(0, 15), "lq": {1}},
 			{"L": {1}, "na": {1}, "lensa": {1}, "opta": {16}, "nb": {2}, "lensb": {3}, "optb": {9}, "nops": {3}, "seq": {1, 4, 6, 13, 19, 24, 33, 45, 52, 57}, "lq": {1}}},
 		Thorough: []Grid{{"L": {1}, "na": {2}, "lensa": {3}, "opta": {9, 16}, "nb": {1, 2}, "lensb": {1, 3}, "optb": {16, 2}, "nops": {3}, "seq": rng(0, 63), "lq": {1, 2}}},
-		Note: "all sequences over {Unmarshal(A), Unmarshal(B), Unmarshal(empty), Reset} on one instance: final answers, message and Stat equal a fresh instance that saw only the last operation"})
+		Note:     "all sequences over {Unmarshal(A), Unmarshal(B), Unmarshal(empty), Reset} on one instance: final answers, message and Stat equal a fresh instance that saw only the last operation"})
 	out = append(out, &HarnessSpec{Name: "l2_residue", Pkg: "trie", Property: "C18", Witness: 1,
 		Quick: []Grid{{"L": {1}, "na": {2}, "lensa": {3}, "opta": {9}, "nb": {1}, "lensb": {1}, "optb": {16}, "nops": {2}, "seq": {1, 2, 4, 6, 8, 9, 12}, "lq": {1}}},
 		Note:  "Stat() after Unmarshal/Reset sequences on one instance (with Stat() calls in between) equals the Stat() of a fresh instance that loaded only the last stream"})
@@ -425,11 +472,11 @@ func apiSpecs() []*HarnessSpec {
 		Quick: []Grid{{"L": {1}, "enc": {3, 4, 5, 6}, "na": {1, 2}, "lensa": {1, 3}, "opta": {16}, "nb": {1, 2}, "lensb": {1, 3}, "optb": {16}, "lq": {1}, "viaload": {0, 1}},
 			{"L": {1}, "enc": {5}, "na": {2}, "lensa": {3}, "opta": {9, 0}, "nb": {2}, "lensb": {3}, "optb": {9, 2}, "lq": {1}, "viaload": {0}}},
 		Thorough: []Grid{{"L": {2}, "enc": {3, 4, 5, 6}, "na": {2}, "lensa": {4, 8}, "opta": {16, 9}, "nb": {1, 2}, "lensb": rng(0, 8), "optb": {16, 9}, "lq": {2}, "viaload": {0, 1}}},
-		Note: "typed getters agree with Get on an instance that already answered typed and untyped queries for data A and was then loaded with data B by a direct Unmarshal (no Reset)"})
+		Note:     "typed getters agree with Get on an instance that already answered typed and untyped queries for data A and was then loaded with data B by a direct Unmarshal (no Reset)"})
 	out = append(out, &HarnessSpec{Name: "l2_legacy0509", Pkg: "trie", Property: "C18", Witness: 1,
 		Quick: []Grid{{"n": {0, 1}, "L": {2}, "lens": {0, 1, 2}, "variant": {0, 1}, "hdr": {0, 2}},
 			{"n": {2}, "L": {1}, "lens": rng(0, 3), "variant": {0, 1}, "hdr": {0}}},
-		Note:  "KeyCnt (and every answer) is preserved when the equivalent legacy stream is loaded (writer model G.1)"})
+		Note: "KeyCnt (and every answer) is preserved when the equivalent legacy stream is loaded (writer model G.1)"})
 	out = append(out, &HarnessSpec{Name: "l3_legacy", Pkg: "trie", Property: "C18", Witness: 1,
 		Quick: []Grid{{"skel": {0, 1, 8, 101, 110, 303}, "model": {0, 1}, "variant": {1}, "opt": {0}, "lq": {0}}},
 		Note:  "legacy-loaded skeletons: KeyCnt = n and Stat equal to the index built by the current code (0.5.10 layout)"})
@@ -490,7 +537,9 @@ func apiSpecs() []*HarnessSpec {
 			{"n": {4}, "L": {1}, "lens": rng(0, 15), "mode": {0, 1}, "lq": {2}}},
 		Note: "symbolic records (key, int64 offset): strictly increasing offsets with Get, non-decreasing block offsets (arbitrary block structure as models of the symbolic offsets) with RangeGet; a key-verifying reader; found exactly for indexed keys with the stored record, for an arbitrary symbolic query"})
 	out = append(out, &HarnessSpec{Name: "ix_skel", Pkg: "index", Property: "C12", Witness: 1,
-		Quick:    []Grid{{"keys": {7, 105, 120, 154, 194, 342}, "bs": {1, 3, 64}, "lq": {1}}, {"keys": {7, 105, 154}, "bs": {1, 3}, "lq": {1}, "other": {1, 2, 3}}},
+		Quick: []Grid{{"keys": {7, 105, 120, 154, 194, 342}, "bs": {1, 3, 64}, "lq": {1}},
+			{"keys": {12, 13}, "bs": {1, 3}, "lq": {1}}, // key lengths 0..300, on and around 32/64/128/256 bytes
+			{"keys": {7, 105, 154}, "bs": {1, 3}, "lq": {1}, "other": {1, 2, 3}}},
 		Thorough: []Grid{{"keys": append([]int{7, 154, 194, 342, 623}, step(105, 400, 15)...), "bs": {1, 2, 3, 7, 64}, "lq": {1, 2}}, {"keys": {7, 105, 120, 154, 194, 342}, "bs": {1, 3, 64}, "lq": {1}, "other": {1, 2, 3}}},
 		Note:     "L3: concrete key sets (257-bit root, 64-aligned bitmap lengths / leaf counts / inner-node counts, sweeps) with block sizes 1..64: every indexed key returns its record; a symbolic query is found exactly when indexed"})
 	// ---- C16 ----
@@ -540,8 +589,8 @@ func apiSpecs() []*HarnessSpec {
 			{"n": {3}, "L": {2}, "lens": rng(0, 26), "opt": {0, 2, 8}, "enc": {1}, "hdr": {0}, "lq": {1, 2, 3}}},
 		Note: "message of the current builder rewritten by writer model G.2 into the 0.5.10/0.5.11 layout (nopref / innpref / allpref) -> real Unmarshal (before000512InnerPrefixTobitstr, before000512FixLeafSize, init) -> same answers as the index it encodes for a symbolic query; exact absent-key answers and scans for allpref"})
 	out = append(out, &HarnessSpec{Name: "l3_legacy", Pkg: "trie", Property: "C06", Witness: 1,
-		Quick: []Grid{{"skel": {0, 1, 2, 8}, "model": {0}, "variant": {0, 1, 3}, "opt": {0}, "lq": {1}},
-			{"skel": {0, 1, 8, 9}, "model": {1}, "variant": {0}, "opt": {0, 2, 8}, "lq": {1}},
+		Quick: []Grid{{"skel": {0, 1, 2, 8, 12, 13, 14}, "model": {0}, "variant": {0, 1, 3}, "opt": {0}, "lq": {1}},
+			{"skel": {0, 1, 8, 9, 12, 13, 14}, "model": {1}, "variant": {0}, "opt": {0, 2, 8}, "lq": {1}},
 			{"skel": append(step(100, 150, 2), append(rng(300, 306), rng(310, 315)...)...), "model": {0}, "variant": {1}, "opt": {0}, "lq": {0}},
 			{"skel": append(step(100, 150, 2), append(rng(300, 306), rng(310, 315)...)...), "model": {1}, "variant": {0}, "opt": {0, 8}, "lq": {0}}},
 		Thorough: []Grid{{"skel": {0, 1, 2, 3, 4, 7, 8, 9}, "model": {0}, "variant": {0, 1, 3, 4}, "opt": {0}, "lq": {1, 2}},
